@@ -77,6 +77,12 @@ func zzH_C08seq() {
 	m.yieldW = false
 	codec := NewServerCodec(&zzBytesCodec{}, nil, m, true, 64)
 	vGo("server", func() { s.ServeCodec(codec) })
+	burst := vChoose("burst", 2) == 1 // frames arrive back to back (queued behind one another) or one at a time
+	if burst {
+		// a stream is open before the burst, so that stream frames in it have something to hit
+		m.deliver(zzRequest(5, zzUpgBytes(zzUpgOpenStream), "S.Watch", nil))
+		vQuiesce()
+	}
 	for i := 0; i < n; i++ {
 		seq := uint64(5 + vChoose("seq", 2))
 		switch vChoose("frame", 7) {
@@ -95,8 +101,11 @@ func zzH_C08seq() {
 		case 6:
 			m.deliver(zzRequest(seq, zzUpgBytes(zzUpgCloseStream), "", nil))
 		}
-		vQuiesce()
+		if !burst {
+			vQuiesce()
+		}
 	}
+	vQuiesce()
 	m.deliver(zzRequest(9, nil, "S.Echo", []byte{0x11}))
 	vQuiesce()
 	m.fail(io.EOF)
